@@ -425,6 +425,10 @@ def call_repo(engine, fi, args, kwargs, st, node=None):
     new_env = {}
     frame = Frame(fi.module, fi, fi.cls, fi.fq)
     st = bind_params(engine, fi.node.args, args, kwargs, new_env, st, frame, fi)
+    if any(d.split(".")[-1] == "contextmanager" for d in fi.decorators):
+        # a generator-based context manager: nothing runs until the with statement enters it
+        yield st, SV("gencm", (fi, new_env))
+        return
     # declared parameter types refine dynamically typed arguments
     for p in fi.node.args.args:
         if p.annotation is not None and p.arg in new_env and new_env[p.arg].kind == "v" and new_env[p.arg].ty == TAny:
